@@ -71,6 +71,47 @@ def dim_eq(a, b):
     return a == b
 
 
+def dim_size(d):
+    """Size of a dim as a polynomial over the dimension symbols (None if unknown)."""
+    if d == UNK:
+        return None
+    if isinstance(d, int):
+        return T.const(d)
+    if isinstance(d, str):
+        return T.sym(d)
+    if isinstance(d, tuple):
+        if d[0] == "poly":
+            return d[1]
+        parts = [dim_size(x) for x in d[1]]
+        if any(x is None for x in parts):
+            return None
+        r = T.ONE if d[0] == "flat" else T.ZERO
+        for x in parts:
+            r = r * x if d[0] == "flat" else r + x
+        return r
+    return None
+
+
+def dims_equal(a, b):
+    """True / False / None.  Structural equality, else equality of sizes as polynomials (distinct
+    symbols are never assumed equal)."""
+    if a == UNK or b == UNK:
+        return None
+    if a == b:
+        return True
+    sa, sb = dim_size(a), dim_size(b)
+    if sa is None or sb is None:
+        return None
+    return sa == sb
+
+
+def better_dim(a, b):
+    """Prefer the structured representation of two equal dims."""
+    if isinstance(a, tuple) and a[0] == "poly":
+        return b
+    return a
+
+
 def broadcast(s1, s2, site=None):
     if s1 is None or s2 is None:
         return None
@@ -85,14 +126,16 @@ def broadcast(s1, s2, site=None):
             out.append(x)
         elif x == UNK or y == UNK:
             out.append(x if y == UNK else y)
-        elif x == y:
-            out.append(x)
+        elif dims_equal(x, y):
+            out.append(better_dim(x, y))
         else:
             raise ShapeMismatch("cannot broadcast %s with %s" % (show_shape(s1), show_shape(s2)), site)
     return tuple(out)
 
 
 def show_dim(d):
+    if isinstance(d, tuple) and d[0] == "poly":
+        return "<%r>" % (d[1],)
     if isinstance(d, tuple):
         sep = "*" if d[0] == "flat" else "+"
         return "(" + sep.join(show_dim(x) for x in d[1]) + ")"
@@ -392,7 +435,7 @@ class VIter(V):
 
 # ------------------------------------------------------------------------------ effects
 class Effect:
-    __slots__ = ("kind", "obj", "origins", "site", "func", "detail", "stack")
+    __slots__ = ("kind", "obj", "origins", "site", "func", "detail", "stack", "lines")
 
     def __init__(self, kind, obj, origins, site, func, detail, stack):
         self.kind = kind  # 'write' | 'meta' | 'setattr' | 'rebind-param' | 'container' | 'ext' | 'grad' | 'params'
